@@ -50,6 +50,7 @@ type lsW struct {
 	m       []lsEnt
 	removed [8]lsEnt
 	nRem    int
+	cleared [8]lsEnt // some handles that were in the list when it was cleared: their Value must stay
 	nextV   int
 	maxLen  int
 	emptied int // 0 never emptied, 1 just emptied by Clear, 2 just emptied by removing every node
@@ -333,6 +334,9 @@ func (w *lsW) do(op int) {
 		}
 	case lsClear:
 		for i := range w.m {
+			if i < len(w.cleared) {
+				w.cleared[i] = w.m[i]
+			}
 			w.m[i] = lsEnt{}
 		}
 		w.m = w.m[:0]
@@ -394,6 +398,13 @@ func (w *lsW) check(after string) {
 			r.Violate("C06", "list/front-has-prev/after-"+after, "after %s: the backward walk does not end after %d nodes: the next node is %s", after, n, w.describe(cur))
 		}
 		return
+	}
+	// handles dropped by Clear keep their Value ("their Value is never touched")
+	for _, e := range w.cleared {
+		if e.n != nil && e.n.Value != e.v {
+			r.Violate("C06", "list/value-changed/cleared-handle", "after %s: the Value of a handle that was in the list when it was cleared is %d, it was created with %d", after, e.n.Value, e.v)
+			return
+		}
 	}
 	// nodes removed with Remove: neither neighbour, Value untouched
 	for _, e := range w.removed {
